@@ -369,10 +369,17 @@ func GetLatestBundle(repo string, stores context2.Stores) (string, error) {
 		return "", fmt.Errorf("no bundles uploaded to repo: %s", repo)
 	}
 
-	apc, err := model.GetArchivePathComponents(ks[len(ks)-1])
-	if err != nil {
-		return "", err
+	// keys are sorted: walk them backwards down to the most recent bundle with a descriptor.
+	// File lists without a descriptor are leftovers from an upload that is not complete: not a bundle.
+	for i := len(ks) - 1; i >= 0; i-- {
+		apc, err := model.GetArchivePathComponents(ks[i])
+		if err != nil {
+			return "", err
+		}
+		if ks[i] == model.GetArchivePathToBundle(repo, apc.BundleID) {
+			return apc.BundleID, nil
+		}
 	}
 
-	return apc.BundleID, nil
+	return "", fmt.Errorf("no bundles uploaded to repo: %s", repo)
 }
